@@ -1208,10 +1208,10 @@ class _iterinfo(object):
                         lyearlen = 365+calendar.isleap(year-1)
                         if lno1wkst >= 4:
                             lno1wkst = 0
-                            lnumweeks = 52+(lyearlen +
-                                            (lyearweekday-rr._wkst) % 7) % 7//4
+                            lwyearlen = lyearlen+(lyearweekday-rr._wkst) % 7
                         else:
-                            lnumweeks = 52+(self.yearlen-no1wkst) % 7//4
+                            lwyearlen = lyearlen-lno1wkst
+                        lnumweeks = lwyearlen//7+lwyearlen % 7//4
                     else:
                         lnumweeks = -1
                     if lnumweeks in rr._byweekno:
